@@ -342,8 +342,9 @@ class Report:
             json.dump(ev, f, indent=1, sort_keys=True)
         for key, what in self.known:
             log("KNOWN-FINDING: property=%s %s" % (self.pid, what))
+        vdir = os.path.join(wd, "violations")
+        shutil.rmtree(vdir, ignore_errors=True)
         if self.violations:
-            vdir = os.path.join(wd, "violations")
             os.makedirs(vdir, exist_ok=True)
             seen = set()
             for i, (key, desc, case) in enumerate(self.violations[:400]):
